@@ -264,7 +264,7 @@ package silence
 //@   ensures [legacy-cleared] len(sil.Matchers) == 0 && sil.Matchers == nil
 //@   ensures [multi-set-untouched] old(len(sil.MatcherSets)) > 0 ==> sil.MatcherSets == old(sil.MatcherSets)
 //@   ensures [legacy-upgraded] old(len(sil.MatcherSets)) == 0 && old(len(sil.Matchers)) > 0 ==> len(sil.MatcherSets) == 1 && sil.MatcherSets[0] != nil && sil.MatcherSets[0].Matchers == old(sil.Matchers)
-//@   assigns sil.Matchers, sil.MatcherSets
+//@   assigns sil.Matchers, sil.MatcherSets, sil.MatcherSets[*]
 
 // C11/C02/C12: loading a snapshot installs exactly the decoded silences whose matchers compile, each filed under
 // its id, listed in the version index and present in the matcher index - so that queries and garbage collection
